@@ -122,7 +122,9 @@ def modify (cfg : Cfg) (w : World) (a : Nat) (r : ModReq) : ModOut :=
     | some (qers2, delQ) =>
     let t := sendDel cfg w1.tables delP delF delQ
     let s' : Session := { s with pdrs := pdrs2, fars := fars2, qers := qers2 }
-    let w2 := { w1 with tables := t }
+    -- a removed PDR takes its UP-chosen TEID with it (the stored session no longer has the rule when it ends)
+    let g := delP.foldl (fun g p => if p.chooseTeid then Teid.free g p.tunnelTEID else g) w1.teid
+    let w2 := { w1 with tables := t, teid := g }
     { world := w2.setConn a { c with sessions := c.sessions.map fun x => if x.lseid = r.seid then s' else x },
       reply := { cause := causeAccepted, seid := s.rseid }, markers := markers }
 
